@@ -126,6 +126,7 @@ def dest_size(dest, aliases):
 def sweep():
     src = os.path.join(vlib.REPO, "src", "loaders")
     names, rows = [], []
+    subs_raw, file_stores = [], {}
     for fn in sorted(os.listdir(src)):
         if not fn.endswith(".c") or fn == "common.c":
             continue
@@ -218,11 +219,58 @@ def sweep():
                         re.search(r"libxmp_alloc_track\s*\([^;]*\b%s\b" % re.escape(var or "rows"), before[-400:]):
                     cls = "helper"
                 rows.append((fn, fname, "pattern" if "xxp" in lhs else "track", cls))
-    return sorted(set(names), key=lambda t: (t[0], t[1], t[2], str(t[5]))), sorted(set(rows))
+            # ---- sub-instrument allocations vs the stored nsm
+            stores = [norm(m.group(1)) for m in re.finditer(r"\bnsm\s*=(?!=)\s*([^;]+);", body)]
+            file_stores.setdefault(fn, []).extend(stores)
+            for m in re.finditer(r"\blibxmp_alloc_subinstrument\s*\(", body):
+                args_s, _ = call_args(body, m.end() - 1)
+                args = split_args(args_s)
+                if len(args) < 3:
+                    continue
+                subs_raw.append((fn, fname, norm(args[2]), stores))
+    subs = []
+    for fn, fname, cnt, stores in subs_raw:
+        subs.append((fn, fname, cnt, sub_class(cnt, stores, file_stores.get(fn, []))))
+    return sorted(set(names), key=lambda t: (t[0], t[1], t[2], str(t[5]))), sorted(set(rows)), sorted(set(subs))
+
+
+def norm(e):
+    return re.sub(r"\s+", "", e)
+
+
+def at_most(rhs, c):
+    """the stored nsm expression is at most the literal c by its form"""
+    v = const_value(rhs)
+    if v is not None:
+        return v <= c
+    if c >= 1 and (re.fullmatch(r"!!\(?[\w\[\]\->.]+\)?", rhs) or re.fullmatch(r"\(?[\w\[\]\->.]+>0\)?", rhs)
+                   or re.fullmatch(r"[^?]+\?1:0", rhs) or re.fullmatch(r"[^?]+\?0:1", rhs)):
+        return True
+    return False
+
+
+def sub_class(cnt, stores, file_stores):
+    """how the count passed to libxmp_alloc_subinstrument relates to the nsm the loader stores:
+    lvalue   the count IS an nsm field (…nsm)
+    sameExpr the same expression is stored into nsm in the same function (other stores there only store 0)
+    literal  a literal count; every nsm store of the function (of the file when the function has none) is at
+             most that literal by its form (literal, boolean, `c ? 1 : 0`)
+    other    none of these"""
+    if re.search(r"(->|\.)nsm$", cnt):
+        return "lvalue"
+    c = const_value(cnt)
+    if c is not None:
+        pool = stores if stores else file_stores
+        if all(at_most(r, c) for r in pool):
+            return "literal"
+        return "other"
+    if cnt in stores and all(r == cnt or const_value(r) == 0 for r in stores):
+        return "sameExpr"
+    return "other"
 
 
 def generate():
-    names, rows = sweep()
+    names, rows, subs = sweep()
 
     def opt(v):
         return "none" if v is None else "(some %d)" % v
@@ -245,9 +293,14 @@ def generate():
               "/-- stores to `xxp[..]->rows` / `xxt[..]->rows` outside loaders/common.c: (file, function, pattern|track, guard) -/",
               "def rowStores : List (String × String × String × RowGuard) := ["]
     lines.append(",\n".join('  ("%s", "%s", "%s", .%s)' % r for r in rows))
+    lines += ["]", "", "inductive SubCount where", "  | lvalue | sameExpr | literal | other", "  deriving DecidableEq, Repr", "",
+              "/-- calls of `libxmp_alloc_subinstrument(mod, i, count)` in the loaders: (file, function, count expression,",
+              "relation of the count to the `nsm` the loader stores) -/",
+              "def subAllocs : List (String × String × String × SubCount) := ["]
+    lines.append(",\n".join('  ("%s", "%s", "%s", .%s)' % t for t in subs))
     lines += ["]", "", "end Xmp.Gen.C03NameCopies", ""]
     changed = vlib.write_if_changed(OUT, "\n".join(lines))
-    return {"names": names, "rows": rows, "changed": changed}
+    return {"names": names, "rows": rows, "subs": subs, "changed": changed}
 
 
 if __name__ == "__main__":
@@ -258,4 +311,6 @@ if __name__ == "__main__":
         flag = "DYNAMIC" if b is None else ("OK" if (b <= lim or (term is not None and term <= size - 1 and b <= size and kind == "raw")) else "TOO-BIG")
         print(flag, t)
     for t in r["rows"]:
+        print(t)
+    for t in r["subs"]:
         print(t)
